@@ -6,7 +6,11 @@ patch="$1"; demo="$2"; shift 2
 dir=$(mktemp -d /tmp/numpoly-seed-XXXX)
 cp -r /repo/numpoly /repo/test /repo/conftest.py /repo/pyproject.toml "$dir/"
 ( cd "$dir" && patch -p1 -s < "$patch" ) || { echo "PATCH FAILED"; rm -rf "$dir"; exit 2; }
-suite=$(cd "$dir" && PYTHONPATH="$dir" /venv/bin/python -m pytest -q -p no:cacheprovider test 2>&1 | tail -1)
+suite=""
+for hs in 0 1 2; do
+  one=$(cd "$dir" && PYTHONHASHSEED=$hs PYTHONPATH="$dir" /venv/bin/python -m pytest -q -p no:cacheprovider test 2>&1 | tail -1 | sed 's/, [0-9]* warnings.*//')
+  suite="$suite[hashseed $hs: $one] "
+done
 echo "suite with change: $suite"
 ( cd /tmp && PYTHONPATH=/repo /venv/bin/python "$demo" >/dev/null 2>&1 ); echo "demo on clean tree: exit $?"
 ( cd /tmp && PYTHONPATH="$dir" /venv/bin/python "$demo" >/dev/null 2>&1 ); echo "demo with change:  exit $?"
